@@ -615,7 +615,7 @@ def match_known(prop, cls, witness):
 # replay files
 
 def write_replay(prop, seed, tier, plan, viol, digest, witness):
-    d = os.path.join(VERIF_DIR, 'replays')
+    d = os.environ.get('YPSIM_REPLAY_DIR') or os.path.join(VERIF_DIR, 'replays')
     os.makedirs(d, exist_ok=True)
     path = os.path.join(d, '%s-%d.json' % (prop, seed))
     with open(path, 'w') as f:
